@@ -59,6 +59,10 @@ def recv_summaries(ex: Extraction, q: str, kind: str, variant, precond):
 
 def check(model: Model, run: Run) -> None:
     ex = extraction(model)
+    from ..commonrules import values_compare_by_their_fields
+    values_compare_by_their_fields(model, run, "M3-values-compare-by-their-fields",
+                                   [q for q, c in model.classes.items() if c.is_dataclass and c.module in ("sansldap._messages", "sansldap._controls", "sansldap._filter", "sansldap._authentication")],
+                                   "what one side receives is not `==` to what the other sent although every field is")
     run.explanation = ("sibling cross-check (neither side is the oracle): for each message class the successor state and the change to "
                        "the outstanding/search id sets on the sending side (client or server API path that queues the message) must equal "
                        "those on the receiving side (receive path for that incoming class), for every pre-state the sender can be in, "
@@ -67,6 +71,8 @@ def check(model: Model, run: Run) -> None:
     common_coverage(ex, run)
     from .c07 import exit_does_not_swallow
     exit_does_not_swallow(model, run)
+    from .c12 import drain_defaults_to_everything
+    drain_defaults_to_everything(model, run, "M4-no-amount-means-everything")
     # every octet sent is received exactly once: the receive loops test the reader itself for "octets left"
     from ..readerrules import lemma_reader_truth
     lemma_reader_truth(model, run)
